@@ -1,6 +1,9 @@
 #!/bin/sh
-# tools/seedtest.sh <dir with patch.diff> <Cnn...>: apply a seeded change to /repo, run the checks, undo it.
+# tools/seedtest.sh <dir with patch.diff> <Cnn...>: apply a seeded change to a scratch worktree of /repo's HEAD
+# (never to /repo itself), run the checks against it with --root, remove the worktree.
 D=$1; shift
-cd /repo && git apply $D/patch.diff || { echo "patch does not apply"; exit 2; }
-for P in "$@"; do (cd /verif && ./check $P 2>&1 | grep -E "VIOLATION|govc:" | sed -E 's/clause="[^"]*"//' | cut -c1-400); done
-cd /repo && git apply -R $D/patch.diff && git status --short
+WT=/var/tmp/govc-seedtest-$$
+git -C /repo worktree add -q --detach $WT HEAD || exit 2
+trap 'git -C /repo worktree remove --force $WT 2>/dev/null; rm -rf $WT' EXIT INT TERM
+git -C $WT apply $D/patch.diff || { echo "patch does not apply"; exit 2; }
+for P in "$@"; do (cd /verif && ./check $P --root $WT 2>&1 | grep -E "VIOLATION|govc:" | sed -E 's/clause="[^"]*"//' | cut -c1-400); done
